@@ -127,19 +127,24 @@ def make_pool(rng, tier, size):
     corp = cli.corpus()
     pool = []
     seen = set()
+    # few models per shard, so that requests on the same model object follow each other often (different shards and
+    # seeds take different models); generated kernels prefer models where composition from the register form happens
+    shard_archs = {}
+    for isa in ("x86", "aarch64"):
+        allowed = QUICK_ARCHS[isa] if tier == "quick" else isolate.archs_of(isa)
+        shard_archs[isa] = rng.sample(allowed, 2 if tier == "quick" else 3)
     while len(pool) < size:
         isa = rng.choice(["x86", "aarch64"])
-        archs = QUICK_ARCHS[isa] if tier == "quick" else isolate.archs_of(isa)
+        archs = shard_archs[isa]
         generated = rng.random() < 0.5
         req = {"isa": isa, "opts": [], "text": None, "classes": []}
         if generated:
             req["text"], req["classes"] = gen_kernel(rng, isa)
             req["kernel"] = None
             # the composition path lives in models without explicit memory forms; prefer those for generated kernels
-            pref = {"x86": ["zen1", "zen2", "zen3", "spr"], "aarch64": ["tx2", "n1", "a64fx", "v2"]}[isa]
-            if "altport" in req["classes"]:
-                pref = ["a64fx"]
-            req["arch"] = rng.choice(pref if rng.random() < 0.7 else archs)
+            req["arch"] = rng.choice(archs)
+            if "altport" in req["classes"] and rng.random() < 0.8:
+                req["arch"] = "a64fx"
         else:
             k = rng.choice([c for c in corp if c["isa"] == isa and c["lines"] <= (140 if tier == "quick" else 700)])
             req["kernel"] = k["path"]
